@@ -14,7 +14,7 @@ from . import c01
 PROPERTY = "C06"
 LEVEL = "exploration"
 VARIANTS = ["fast"]
-RULE = ("strings: all of length<=3 (quick) / 5 (thorough) over 15 symbols + all single bytes 1..255; numbers: +-m*10^e, m in 1..99 and "
+RULE = ("strings: all of length<=4 (quick) / 5 (thorough) over 15 symbols + all single bytes 1..255; numbers: +-m*10^e, m in 1..99 and "
         "selected 3-6 digit mantissas, e in -37..37 (thorough: every m<10^6 at e in {-3,0,3,30}); arrays to depth 3; code: all C01 "
         "k<=2 trees, all 3-node trees over 10 levels (thorough: over 20 classes, and 4-node over 10 levels) and statement samples; literal spellings: cross product of integer/fraction/exponent patterns and hex forms; "
         "a case = one value/text; non-trivial = all (distinct values by construction)")
@@ -333,7 +333,7 @@ def check_literals(ws, batch):
 def spaces(tier):
     q = tier == "quick"
     return [
-        Space("strings", gen_strings(3 if q else 5), check_strings, variant="fast", describe="every single byte and all strings up to length %d over 15 symbols" % (3 if q else 5)),
+        Space("strings", gen_strings(4 if q else 5), check_strings, variant="fast", describe="every single byte and all strings up to length %d over 15 symbols" % (4 if q else 5)),
         Space("numbers", gen_numbers(not q), check_numbers, variant="fast", describe="+-m*10^e, <=6 significant digits" + ("" if q else ", plus every m<10^6 at 4 exponents")),
         Space("arrays", gen_arrays, check_arrays, variant="fast", describe="nested arrays to depth 3 over 8 leaf values incl. code and strings with quotes/newlines"),
         Space("code", gen_code(not q), check_code, variant="fast", describe="every C01 k<=2 tree, all 3-node trees over the 10 levels" + ("" if q else ", all 3-node trees over 20 classes, all 4-node trees over 10 levels") + ", operand forms, statement samples as code body: str -> compile, instruction-for-instruction"),
